@@ -719,6 +719,18 @@ def case_eth (c, rep):
       continue
     exp = dict(str=canon, raw=raw, toRaw=raw, tup=tuple(raw), ln=6,
                rep="EthAddr('%s')" % canon, dash=canon.replace(":", "-"))
+    if name in ("raw", "dash", "hex12", "list", "copy"):
+      # a log line printed the address with its vendor's name first (and
+      # another one with dashes): what the plain forms say afterwards is what
+      # they always say
+      try:
+        t1 = a.to_str(resolve_names=True); t2 = a.to_str("-", True)
+        rep.count("eth_addresses_printed_with_vendor_names_first")
+        if not isinstance(t1, str) or not t1.endswith(canon[9:]):
+          _fail(rep, "eth text with vendor name", "%r for %s" % (t1, canon), c)
+      except Exception as e:
+        _fail(rep, "eth accessor raises form=%s" % name,
+              "EthAddr(%s).to_str(resolve_names=True): %r" % (canon, e), c)
     try:
       obs = dict(str=str(a), raw=a.raw, toRaw=a.toRaw(), tup=a.toTuple(),
                  ln=len(a), rep=repr(a), dash=a.toStr("-"))
@@ -1164,6 +1176,9 @@ def gen (kind, rng, scale):
         for other in (0, 1, 0x3a, 0x2d, 0xff):
           yield dict(t="eth", raw=ch * pos + bytes([other]) + ch * (5 - pos))
       yield dict(t="eth", raw=ch * 6)
+    # addresses of well-known vendors (their first three octets have a name)
+    for oui in ("002320", "00000c", "005056", "080027", "001b21", "000c29", "3c970e", "b827eb"):
+      yield dict(t="eth", raw=bytes.fromhex(oui) + bytes(rng.randrange(256) for _ in range(3)))
     for raw in (b"\0" * 6, b"\xff" * 6, b"\x01\x02\x03\x04\x05\x06",
                 b"abcdef", b"a:b:c:", b"\x0a\x0b\x0c\x0d\x0e\x0f",
                 b"\x00\x00\x00\x00\x00\x01", b"\x10\x20\x30\x40\x50\x60"):
